@@ -67,6 +67,14 @@ type c10tFreezeConn struct {
 	net.Conn
 	frozen   atomic.Bool
 	unfreeze chan struct{}
+	once     sync.Once
+}
+
+// Close releases a reader parked by the freeze (the harness's own yamux session waits for its read loop when it is
+// closed) and closes the socket.
+func (c *c10tFreezeConn) Close() error {
+	c.once.Do(func() { close(c.unfreeze) })
+	return c.Conn.Close()
 }
 
 func (c *c10tFreezeConn) Read(p []byte) (int, error) {
@@ -552,7 +560,9 @@ func TestVF_C10_TCP(t *testing.T) {
 	st := vfshared.NewStats("C10", part, c10tRule)
 	defer st.Flush()
 	run := func(tt interface{ Fatalf(string, ...any) }, c c10tCase) {
+		rel := vfshared.RealTimeGuard(10*time.Minute, "C10 tcp case", c)
 		res := c10tRun(c)
+		rel()
 		if res.viol != "" {
 			if len(res.viol) > 8 && res.viol[:8] == "HARNESS:" {
 				tt.Fatalf("%s", res.viol)
